@@ -10,7 +10,7 @@ from harness.engines import sched
 META = {
     "engine": "Sched",
     "category": "proof",
-    "design_ref": "§6 C15, §5.5, D71",
+    "design_ref": "§6 C15, §5.5, D73",
     "technique": "Lean 4 invariant proof by induction over rounds of the scheduling loop for all schedules + controlled-worker differential correspondence",
     "text": "Lean theorems for every sortable workflow graph, any number of nodes and jobs per node (job lists built at start() "
     "from upstream values, shared checksums allowed), every max_concurrent, every schedule of environment moves (body starts, "
@@ -27,9 +27,9 @@ META = {
     "statement holds in full and cached jobs are never executed (C15_precedence_cached); with rerun=True it holds in the form "
     "'a body starts only after the bodies of all jobs of all predecessor nodes have ended IN THIS SUBMISSION', together with "
     "'every job is re-executed and every output is a value of this submission', for the synchronous loop without a "
-    "max_concurrent limit (C15_rerun_sync_unlimited) - and NOT otherwise: known finding D71 (a queued job's pre-existing "
+    "max_concurrent limit (C15_rerun_sync_unlimited) - and NOT otherwise: known finding D73 (a queued job's pre-existing "
     "result is taken as its outcome), computed for the model as C15_rerun_cut_job_keeps_old_result, "
-    "C15_errored_result_not_retried, C15_rerun_stale_read_race, C15_rerun_readonly_stale_read and replayed on the real code.  "
+    "C15_errored_result_not_retried, C15_rerun_stale_read_race, C15_rerun_readonly_stale_read, C15_rerun_lost_input and replayed on the real code.  "
     "Two-pass cases (first submission, then a second one with rerun / after failures / over a readonly cache; bodies stamp an "
     "externally stored generation into their values) are judged by an independent oracle on the body log and the outputs "
     "(which bodies run, start order against the ends of this submission, generation of every value). "
@@ -73,6 +73,7 @@ OBLIGATIONS = [
         "C15_errored_result_not_retried",
         "C15_rerun_stale_read_race",
         "C15_rerun_readonly_stale_read",
+        "C15_rerun_lost_input",
     )
 ]
 LEAN_TARGETS = ["PydraModel.Props.C15"]
@@ -159,7 +160,7 @@ def _n(name, preds=(), **kw):
 
 def two_cases(rng, n):
     """submissions over pre-existing results under the controlled worker.  Chains come first: there the scheduler hands out
-    one job at a time, so that neither `max_concurrent` nor a second future can expose a stale result (finding D71) and the
+    one job at a time, so that neither `max_concurrent` nor a second future can expose a stale result (finding D73) and the
     verdict must be clean on every tree"""
     cases = []
     names = "abcde"
@@ -214,20 +215,20 @@ def judge_sync_two(ctx, cases):
 
 
 _C = sched.load_corpus("C15")
-D71_WITNESSES = [c for c in _C if c.get("witness_of") == "D71"]
+D71_WITNESSES = [c for c in _C if c.get("witness_of") == "D73"]
 
 
 def correspondence(ctx):
     core.assert_repo_loaded()
-    # witnesses of the known finding D71 first, then the corpus, then generated cases (one batch: one set of child
+    # witnesses of the known finding D73 first, then the corpus, then generated cases (one batch: one set of child
     # interpreters, one model-driver run)
     nw = len(D71_WITNESSES)
-    res = sched.explore(ctx, [dict(c) for c in D71_WITNESSES] + [dict(c) for c in CORPUS if c.get("witness_of") != "D71"]
+    res = sched.explore(ctx, [dict(c) for c in D71_WITNESSES] + [dict(c) for c in CORPUS if c.get("witness_of") != "D73"]
                         + gen_cases(ctx.rng, ctx.pick(8, 100)) + two_cases(ctx.rng, ctx.pick(5, 45)),
                         spec, "C15 precedence / exactly once", defect=sched.d71)
-    if any(f["id"] == "D71" for f in ctx.known()):
+    if any(f["id"] == "D73" for f in ctx.known()):
         still = [v for (_, _, _, _, v) in res[:nw]]
-        ctx.finding("D71", nw > 0 and all(v == "known" for v in still),
+        ctx.finding("D73", nw > 0 and all(v == "known" for v in still),
                     "; ".join(f"{c.get('note', '')}: {sched.two_oracle(c, o)[1][:140]}" for (c, o, _, _, _) in res[:nw]))
     judge_sync(ctx, sync_cases(ctx.rng, ctx.pick(5, 60)))
     judge_sync_two(ctx, sync_two_cases(ctx.rng, ctx.pick(4, 30)))
